@@ -30,6 +30,7 @@ EXPLANATION = (
     "(R06.5) the test that starts a new section of the sweep is the negated overlap predicate (or a comparison "
     "equivalent to it for sorted half-open intervals, decided over all orderings)."
     ' R06.5 also: the sweep connects sections with the record length as wrap point exactly when the record is circular.'
+    ' R06.6: the numbering table filled by add_<area> is emptied by the method that empties the list (numbers shown on a feature always identify that feature).'
 )
 UNDECIDED = [
     "that the single sweep plus first/last merge yields exactly the connected components for every layout "
@@ -530,6 +531,35 @@ def r06_4_5(ctx: Ctx) -> None:
     _ = cfg
 
 
+def r06_6(ctx: Ctx) -> None:
+    """ the numbers shown on a feature always identify that feature: the numbering table that `add_<area>` fills is emptied
+        by the function that empties the list - otherwise a cleared feature keeps answering with a number that now belongs
+        to another feature (pairing rule: filled where the list grows => emptied where the list is emptied) """
+    tables = {lst: num for _, (_, lst, num, _) in FAMILIES.items()}
+    tables["_regions"] = "_region_numbering"
+    record = ctx.repo.cls(REC, "Record")
+    count = 0
+    for node in record.node.body:
+        if not isinstance(node, ast.FunctionDef):
+            continue
+        for call in calls(node):
+            if last_attr(call) != "clear" or not isinstance(call.func, ast.Attribute):
+                continue
+            target = txt(call.func.value)
+            if not target.startswith("self.") or target[5:] not in tables:
+                continue
+            count += 1
+            table = tables[target[5:]]
+            emptied = any(last_attr(c) == "clear" and txt(c.func.value) == f"self.{table}" for c in calls(node)) or \
+                any(isinstance(n, ast.Assign) and txt(n.targets[0]) == f"self.{table}" for n in walk_local(node))
+            ctx.ob("R06.6", REC, call, f"Record.{node.name}", f"numbering of {target[5:]} emptied with the list", emptied,
+                   "the numbers of cleared features are forgotten together with the features",
+                   detail="" if emptied else f"`self.{table}` keeps the numbers of the cleared features: a cleared subregion (and its "
+                   "region) still reports number 2 after another subregion has become number 2", form=txt(call))
+    if count < 4:
+        raise AnalysisError(f"R06.6: expected the four area lists to be emptied by clear_* methods, found {count}")
+
+
 def run(ctx: Ctx) -> None:
     ctx.rule("R06.1", "back links set when building areas are reset when clearing them; clear_* call chain", floor=9)
     ctx.rule("R06.2", "area adders and getters are sibling clones: ordered insert, 1-based renumbering", floor=20)
@@ -540,3 +570,5 @@ def run(ctx: Ctx) -> None:
     r06_2(ctx)
     r06_3(ctx)
     r06_4_5(ctx)
+    ctx.rule("R06.6", "numbering tables are emptied with their lists", floor=4)
+    r06_6(ctx)
